@@ -89,8 +89,12 @@ static void ro_phase(int n, int G) {
 // ---- routing -------------------------------------------------------------------------------
 typedef geo::Poly Poly;
 static void sym(int k, double x, double y, double &ox, double &oy) { switch (k) { case 0: ox = x; oy = y; break; case 1: ox = -y; oy = x; break; case 2: ox = -x; oy = -y; break; case 3: ox = y; oy = -x; break; case 4: ox = -x; oy = y; break; case 5: ox = x; oy = -y; break; case 6: ox = y; oy = x; break; default: ox = -y; oy = -x; } }
+static int g_params = 0;   // 0 defaults; 1 reverseDirectionPenalty + crossingPenalty; 2 anglePenalty + fixedSharedPathPenalty + shapeBufferDistance
 static void route_scene(const vector<Poly> &sc, const vector<pair<geo::P, geo::P>> &eps, bool ortho, int symk, double tx, double ty, Sig &out, bool cost) {
     const int S = 10; Avoid::Router *r = new Avoid::Router(ortho ? Avoid::OrthogonalRouting : Avoid::PolyLineRouting); r->setRoutingParameter(Avoid::segmentPenalty, ortho ? 20 : 0);
+    if (g_params == 1) r->setRoutingParameter(Avoid::reverseDirectionPenalty, 100);
+    if (g_params == 2) r->setRoutingParameter(Avoid::anglePenalty, 30);
+    if (g_params == 3) { r->setRoutingParameter(Avoid::crossingPenalty, 50); r->setRoutingParameter(Avoid::fixedSharedPathPenalty, 40); }   // these couple the connectors of a scene
     for (auto &sh : sc) { Avoid::Polygon pg(sh.v.size()); vector<Avoid::Point> pts; for (auto &v : sh.v) { double x, y; sym(symk, v.x * S, v.y * S, x, y); pts.push_back(Avoid::Point(x + tx, y + ty)); }
         // keep the winding libavoid expects: reflections reverse it
         if (symk >= 4) reverse(pts.begin(), pts.end()); for (size_t k = 0; k < pts.size(); k++) pg.ps[k] = pts[k]; new Avoid::ShapeRef(r, pg); }
@@ -101,16 +105,17 @@ static void route_scene(const vector<Poly> &sc, const vector<pair<geo::P, geo::P
         else { out.add(d.size()); for (size_t i = 0; i < d.size(); i++) { out.add(d.ps[i].x - tx); out.add(d.ps[i].y - ty); } } }
     delete r;
 }
-static void routing_phase(int G, int k, bool ortho) {
+static void routing_phase(int G, int k, bool ortho, int params = 0) {
+    g_params = params;
     vector<Poly> alpha; for (int x0 = 0; x0 < G; x0++) for (int x1 = x0 + 1; x1 <= G; x1++) for (int y0 = 0; y0 < G; y0++) for (int y1 = y0 + 1; y1 <= G; y1++) { alpha.push_back(geo::rect(x0, y0, x1, y1)); if (!ortho) { Poly t; t.v = {{x1, y0}, {x1, y1}, {x0, y0}}; alpha.push_back(t); } }
-    ctx.phase(mcx::fmt("%s routing G=%d shapes=%d: 4 heap schedules, 3 translations, 8 symmetries", ortho ? "orthogonal" : "polyline", G, k));
+    ctx.phase(mcx::fmt("%s routing G=%d shapes=%d parameters=%s: 4 heap schedules, 3 translations, 8 symmetries", ortho ? "orthogonal" : "polyline", G, k, params == 0 ? "defaults" : params == 1 ? "reverseDirectionPenalty" : params == 2 ? "anglePenalty" : "crossingPenalty+fixedSharedPathPenalty"));
     vector<int> idx(k); for (int i = 0; i < k; i++) idx[i] = i;
     do { bool ok = true; for (int i = 0; i < k; i++) for (int j = i + 1; j < k; j++) { if (ortho) { geo::R a{(int)alpha[idx[i]].v[3].x, (int)alpha[idx[i]].v[0].y, (int)alpha[idx[i]].v[0].x, (int)alpha[idx[i]].v[1].y}, b{(int)alpha[idx[j]].v[3].x, (int)alpha[idx[j]].v[0].y, (int)alpha[idx[j]].v[0].x, (int)alpha[idx[j]].v[1].y}; if (!(a.x1 + 1 <= b.x0 || b.x1 + 1 <= a.x0 || a.y1 + 1 <= b.y0 || b.y1 + 1 <= a.y0)) ok = false; } else if (geo::interiorsOverlap(alpha[idx[i]], alpha[idx[j]])) ok = false; }
         if (!ok) continue; if (!ctx.next()) continue;
         vector<Poly> sc; for (int i : idx) sc.push_back(alpha[i]);
         vector<geo::P> fr; for (int x = 0; x <= G; x++) for (int y = 0; y <= G; y++) { geo::P q{x, y}; bool in = false; for (auto &s : sc) if (geo::inClosed(s, q)) in = true; if (!in) fr.push_back(q); }
         vector<pair<geo::P, geo::P>> eps; for (size_t a = 0; a < fr.size(); a++) for (size_t b = a + 1; b < fr.size(); b++) if ((a * 7 + b) % (ortho ? 3 : 1) == 0 && eps.size() < 60) eps.push_back({fr[a], fr[b]});
-        string desc = string(ortho ? "orthogonal" : "polyline") + " scene"; for (auto &p : sc) { desc += " ["; for (auto &v : p.v) desc += mcx::fmt("(%lld,%lld)", v.x, v.y); desc += "]"; } desc += mcx::fmt(" %zu connectors", eps.size());
+        string desc = string(ortho ? "orthogonal" : "polyline") + mcx::fmt(" params#%d scene", params); for (auto &p : sc) { desc += " ["; for (auto &v : p.v) desc += mcx::fmt("(%lld,%lld)", v.x, v.y); desc += "]"; } desc += mcx::fmt(" %zu connectors", eps.size());
         ctx.sample(desc, 1); ctx.count("states"); ctx.count("nontrivial");
         under_schedules(desc, "route_depends_on_heap", 0, {}, [&](Sig &s) { route_scene(sc, eps, ortho, 0, 0, 0, s, false); });
         static Sig base, t; plain([&](Sig &s) { route_scene(sc, eps, ortho, 0, 0, 0, s, false); }, base);
@@ -118,7 +123,9 @@ static void routing_phase(int G, int k, bool ortho) {
         for (auto &tr : T) { plain([&](Sig &s) { route_scene(sc, eps, ortho, 0, tr[0], tr[1], s, false); }, t); ctx.count("transitions");
             if (!base.aborted && !t.aborted) { bool diff = base.n != t.n; int at = -1; for (int i = 0; i < base.n && !diff; i++) if (base.v[i] != t.v[i]) { diff = true; at = i; } if (diff) ctx.violation("route_not_translation_invariant", {}, desc + mcx::fmt(" translate (%.17g,%.17g)", tr[0], tr[1]), at >= 0 ? mcx::fmt("value #%d %.17g vs %.17g", at, base.v[at], t.v[at]) : "different route sizes"); } }
         static Sig cbase, ct; plain([&](Sig &s) { route_scene(sc, eps, ortho, 0, 0, 0, s, true); }, cbase);
-        for (int sk = 1; sk < 8; sk++) { plain([&](Sig &s) { route_scene(sc, eps, ortho, sk, 0, 0, s, true); }, ct); ctx.count("transitions");
+        // cost invariance under the symmetries is claimed for independent connectors; crossing / shared-path penalties couple the connectors of a
+        // scene and which of two equally good candidates is rerouted is (legitimately) decided by connector ids
+        for (int sk = 1; sk < 8 && params != 3; sk++) { plain([&](Sig &s) { route_scene(sc, eps, ortho, sk, 0, 0, s, true); }, ct); ctx.count("transitions");
             if (!cbase.aborted && !ct.aborted) for (int i = 0; i < cbase.n; i++) if (!(fabs(cbase.v[i] - ct.v[i]) <= 1e-9)) { ctx.violation("route_cost_not_symmetry_invariant", {}, desc + mcx::fmt(" symmetry #%d", sk), mcx::fmt("connector %d cost %.17g vs %.17g", i, cbase.v[i], ct.v[i])); break; } }
         ctx.done_case();
     } while (mcx::subset_next(idx, alpha.size()) && !ctx.stopped());
@@ -176,7 +183,8 @@ int main(int argc, char **argv) {
     { Sig s; plain([&](Sig &q) { route_scene({geo::rect(1, 1, 2, 2)}, {{{0, 0}, {3, 3}}}, true, 0, 0, 0, q, false); }, s); }   // warm-up in system mode
     vpsc_phase(2, 2); vpsc_phase(3, 2); ro_phase(2, 3); ro_phase(3, 2); ro_phase(3, 3);
     routing_phase(3, 1, false); routing_phase(3, 1, true); routing_phase(3, 2, false); routing_phase(4, 2, true);
+    for (int ps = 1; ps <= 3; ps++) { routing_phase(3, 1, true, ps); routing_phase(3, 1, false, ps); routing_phase(3, 2, true, ps); routing_phase(3, 2, false, ps); } g_params = 0;
     pins_phase(); cola_phase(T ? 1 : 9); hola_phase(3); hola_phase(4);
-    if (T) { vpsc_phase(3, 3); ro_phase(4, 2); routing_phase(4, 1, false); routing_phase(4, 2, false); hola_phase(5); }
+    if (T) { for (int ps = 1; ps <= 2; ps++) routing_phase(4, 2, true, ps); g_params = 0; vpsc_phase(3, 3); ro_phase(4, 2); routing_phase(4, 1, false); routing_phase(4, 2, false); hola_phase(5); }
     return ctx.finish();
 }
